@@ -54,6 +54,7 @@ AMBIENT = {"time", "random", "datetime", "uuid", "getpass", "socket", "secrets",
 STORED_ORDER_TRIAGE = {
     ("ConditionalAction.get_target_override_targets", "return list(tgts)"): "override targets are only iterated to mark states reachable / to index them one by one",
 }
+BREAK_TRIAGE = {}
 SYMBOL_SINKS = {"DFTransition"}        # constructors whose list argument is a symbol collection (compared as a set, emitted sorted: C06)
 
 
@@ -176,6 +177,10 @@ def run(ctx, rep, tier):
                 if picks and any(isinstance(p, ast.Return) and p.value is not None for p in picks):
                     rep.check(key in LOOP_TRIAGE, "C20.b", q, head + "  [first match wins]",
                               f"`{head}` iterates a hash-ordered set and returns from inside the loop: which element wins depends on object addresses / PYTHONHASHSEED", line=node.lineno)
+                elif any(isinstance(p, ast.Break) for p in picks) and (q, head) not in BREAK_TRIAGE:
+                    rep.bad("C20.b", q, head + "  [break: only a hash-order prefix is visited]",
+                            f"`{head}` iterates a hash-ordered set and leaves the loop with `break`: which elements were examined before it stops depends on object addresses / "
+                            "PYTHONHASHSEED, so a verdict or effect computed in the loop does too (unless the break follows a test every element would have to fail)", line=node.lineno)
                 elif sinks:
                     rep.check(key in LOOP_TRIAGE, "C20.b", q, head + "  [action sink]",
                               f"`{head}` iterates a hash-ordered set and feeds {sinks[:2]} through a receiver that is the same in every iteration: the order of the attached actions / joined "
